@@ -18,20 +18,41 @@ struct Item {
   int lastStage = 0; // index of the last stage that handled it (generator = 0)
   int canary = 0x17E5;
   Item() {
+    raceW(this, "pipeline-item");
     g_live++;
   }
   explicit Item(int i) : id(i) {
+    raceW(this, "pipeline-item");
     g_live++;
   }
   Item(const Item& o) : id(o.id), lastStage(o.lastStage), canary(o.canary) {
+    raceR(&o, "pipeline-item");
+    raceW(this, "pipeline-item");
     g_live++;
   }
   Item(Item&& o) noexcept : id(o.id), lastStage(o.lastStage), canary(o.canary) {
+    raceW(&o, "pipeline-item");
+    raceW(this, "pipeline-item");
     g_live++;
   }
-  Item& operator=(const Item& o) = default;
-  Item& operator=(Item&& o) = default;
+  Item& operator=(const Item& o) {
+    raceR(&o, "pipeline-item");
+    raceW(this, "pipeline-item");
+    id = o.id;
+    lastStage = o.lastStage;
+    canary = o.canary;
+    return *this;
+  }
+  Item& operator=(Item&& o) noexcept {
+    raceW(&o, "pipeline-item");
+    raceW(this, "pipeline-item");
+    id = o.id;
+    lastStage = o.lastStage;
+    canary = o.canary;
+    return *this;
+  }
   ~Item() {
+    raceW(this, "pipeline-item");
     canary = 0xDEAD;
     g_live--;
   }
@@ -61,6 +82,7 @@ struct PRun {
   int generatorCallsAfterThrow = 0;
   bool anyFailure = false;
   int work[kMaxStages];         // planned extra body length per stage (simulation points)
+  char serialCell[kMaxStages];  // C10: unsynchronised state of a serial (limit 1) stage
 };
 static PRun* gp;
 
@@ -91,6 +113,9 @@ static void enterStage(int stage, Item& it) {
     it.lastStage = stage;
   }
   sim_event(8, stage, it.id);
+  raceW(&it, "pipeline-item");
+  if (r.limit[stage] == 1)
+    raceW(&r.serialCell[stage], "serial-stage-state");
   sim_work(1 + (int)(sim_step() % 3) + r.work[stage]);
   if (stage == r.throwStage && it.id == r.throwItem) {
     r.thrown = true;
@@ -119,6 +144,8 @@ struct Gen {
     }
     // claim the next id (plain int: atomic between simulation points)
     int id = r.nextId < r.nItems ? r.nextId++ : -1;
+    if (r.limit[0] == 1)
+      raceW(&r.serialCell[0], "serial-stage-state");
     sim_work(1);
     if (id >= 0 && 0 == r.throwStage && id == r.throwItem) {
       r.thrown = true;
